@@ -91,7 +91,7 @@ CHUNK = 150000
 
 COMBO_RS = os.path.join(core.ROOT, "harness", "h_core", "src", "form_combos.rs")
 COMBO_TLA = os.path.join(core.SPECS, "FormDocCombos.tla")
-_PRIM_RS = {"i32c": "i32", "boolc": "bool", "stringc": "String", "level": "Level"}
+_PRIM_RS = {"i32c": "i32", "boolc": "bool", "stringc": "String", "level": "Level", "unit": "()", "value": "Value"}
 
 
 def _ty_rs(t):
@@ -99,6 +99,8 @@ def _ty_rs(t):
         return _PRIM_RS[t["p"]]
     if t["c"] == "vec":
         return "Vec<%s>" % _ty_rs(t["e"])
+    if t["c"] == "opt":
+        return "Option<%s>" % _ty_rs(t["e"])
     if t["c"] == "named":
         return t["n"]
     raise core.ToolError(str(t))
@@ -107,8 +109,8 @@ def _ty_rs(t):
 def _ty_tla(t):
     if t["c"] == "prim":
         return '[c |-> "prim", p |-> "%s"]' % t["p"]
-    if t["c"] == "vec":
-        return '[c |-> "vec", e |-> %s]' % _ty_tla(t["e"])
+    if t["c"] in ("vec", "opt"):
+        return '[c |-> "%s", e |-> %s]' % (t["c"], _ty_tla(t["e"]))
     return '[c |-> "named", n |-> "%s"]' % t["n"]
 
 
@@ -160,6 +162,58 @@ def combo_cell(i, name, tag, hdr, body, nattr, mod, in_enum):
     return {"tag": name.lower() + "-tag" if tag == "rename" else name, "tag_attr": tag == "rename", "shape": shape, "fields": fields}
 
 
+def _OPT(t):
+    return {"c": "opt", "e": t}
+
+
+def _VEC(t):
+    return {"c": "vec", "e": t}
+
+
+def emission_cells():
+    """The field TYPES that change what the writer emits - Option (omit_as_field), unit, collections (possibly empty), the
+    model value (possibly extant) - in each attribute position (header body, header slot, attribute, delegated body, plain
+    slot; named and tuple structs; next to a tag field) together with mandatory and optional neighbours.  The instance
+    domains contain the full None / Some (empty / non-empty) cross of the fields of a type."""
+    I, S, B = _P("i32c"), _P("stringc"), _P("boolc")
+    U, V, TWO, LEVEL = _P("unit"), _P("value"), {"c": "named", "n": "Two"}, _P("level")
+    return [
+        ("named", [("hb", "hbody", _OPT(I)), ("h1", "header", I), ("s1", "slot", I)]),
+        ("named", [("hb", "hbody", _OPT(I)), ("h1", "header", _OPT(I)), ("s1", "slot", I)]),
+        ("named", [("hb", "hbody", _OPT(I)), ("h1", "header", _OPT(I)), ("h2", "header", S), ("s1", "slot", I)]),
+        ("named", [("hb", "hbody", B), ("h1", "header", _OPT(I)), ("h2", "header", _OPT(S)), ("s1", "slot", I)]),
+        ("named", [("hb", "hbody", _OPT(I)), ("s1", "slot", I)]),
+        ("named", [("h1", "header", _OPT(I)), ("b", "body", S)]),
+        ("named", [("s1", "slot", _OPT(I)), ("s2", "slot", S), ("b", "body", TWO)]),
+        ("named", [("hb", "hbody", _OPT(I)), ("s1", "slot", _OPT(I)), ("b", "body", _VEC(I))]),
+        ("named", [("a1", "attr", _OPT(I)), ("a2", "attr", _OPT(S)), ("s1", "slot", I)]),
+        ("named", [("h1", "header", I), ("b", "body", _OPT(S))]),
+        ("named", [("s1", "slot", I), ("b", "body", _OPT(TWO))]),
+        ("named", [("a1", "attr", _OPT(I)), ("b", "body", _OPT(_VEC(I)))]),
+        ("named", [("s1", "slot", _OPT(I)), ("s2", "slot", _OPT(S)), ("s3", "slot", I)]),
+        ("tuple", [("hb", "hbody", _OPT(I)), ("h1", "header", I), ("s1", "slot", _OPT(I)), ("s2", "slot", S)]),
+        ("tuple", [("a1", "attr", _OPT(I)), ("s1", "slot", _OPT(I))]),
+        ("tuple", [("h1", "header", _OPT(I)), ("b", "body", _OPT(S))]),
+        ("named", [("level", "tag", LEVEL), ("hb", "hbody", _OPT(I)), ("h1", "header", _OPT(I)), ("b", "body", S)]),
+        ("named", [("hb", "hbody", U), ("h1", "header", I), ("s1", "slot", I)]),
+        ("named", [("h1", "header", U), ("s1", "slot", U)]),
+        ("named", [("hb", "hbody", _VEC(I)), ("h1", "header", I), ("s1", "slot", I)]),
+        ("named", [("h1", "header", _VEC(I)), ("h2", "header", _OPT(I)), ("s1", "slot", _VEC(I))]),
+        ("named", [("hb", "hbody", V), ("h1", "header", I), ("s1", "slot", I)]),
+        ("named", [("h1", "header", V), ("s1", "slot", I)]),
+    ]
+
+
+def emission_fields(shape, spec):
+    tuple_ = shape == "tuple"
+    fields = []
+    for rust, role, ty in spec:
+        labelled = role in ("attr", "header", "tag")
+        fields.append({"rust": str(len(fields)) if tuple_ else rust, "name": rust if (labelled or not tuple_) else "", "role": role,
+                       "ty": ty, "attrs": "", "needs_name": tuple_ and labelled})
+    return fields, (("newtype" if len(fields) == 1 else "tuple") if tuple_ else "named")
+
+
 def combo_table():
     """[(key, descriptor)] - descriptor in the shape of the SCHEMA dump of the model (+ what the Rust generator needs)"""
     cells = []
@@ -185,6 +239,17 @@ def combo_table():
             variants.append({"vname": vn, "tag": c["tag"], "tag_attr": c["tag_attr"], "shape": c["shape"], "fields": c["fields"],
                              "cell": [tag, hdr, body, nattr, mod]})
         out.append(("KE%d" % (e // 7), {"kind": "enum", "variants": variants}))
+    # the emission cells (optional / unit / collection / model-value fields per position), and some of them as variants
+    ecells = emission_cells()
+    for i, (shape, spec) in enumerate(ecells):
+        fields, sh = emission_fields(shape, spec)
+        out.append(("KO%02d" % i, {"kind": "struct", "tag": "KO%02d" % i, "tag_attr": False, "shape": sh, "fields": fields,
+                                   "cell": ["emission", "", "", 0, ""]}))
+    variants = []
+    for j, i in enumerate((0, 1, 3, 5, 8, 9, 13)):
+        fields, sh = emission_fields(*ecells[i])
+        variants.append({"vname": "V%d" % j, "tag": "V%d" % j, "tag_attr": False, "shape": sh, "fields": fields, "cell": ["emission", "", "", 0, ""]})
+    out.append(("KOE0", {"kind": "enum", "variants": variants}))
     return out
 
 
@@ -201,6 +266,8 @@ def _fields_rs(fields, tuple_):
             at.append("#[form(%s)]" % ", ".join(form))
         if role == "skip":
             at.append("#[serde(skip)]")
+        if f["ty"] == _P("value"):
+            at.append('#[serde(with = "valjson")]')
         decl = _ty_rs(f["ty"]) if tuple_ else "%s: %s" % (f["rust"], _ty_rs(f["ty"]))
         parts.append(" ".join(at + [decl]))
     return ", ".join(parts)
@@ -557,7 +624,7 @@ def model_keys(wd):
             raise errs[0]
         _KEYS["all"] = sorted(json.loads(res["keys"].tagged["SCHEMA"][0]).keys())
         _KEYS["pos"] = [k for k in _KEYS["all"] if "_" in k]
-        _KEYS["combo"] = [k for k in _KEYS["all"] if re.match(r"^KE?\d+$", k)]
+        _KEYS["combo"] = [k for k in _KEYS["all"] if re.match(r"^KO?E?\d+$", k)]
         s = open(os.path.join(core.SPECS, "FormDoc.tla")).read()
         _KEYS["reuse"] = re.findall(r'"([^"]+)"', re.search(r"ReuseKeys == \{(.*?)\}", s, re.S).group(1))
     return _KEYS
